@@ -299,7 +299,7 @@ theorem handleVerificationDone_newOK (m : M) : NewOK m (handleVerificationDone m
         exact diskOKi_mono (handleVerificationDone_adv m).cfg (handleVerificationDone_adv m).bad j this
     · exact Or.inr (fun i hi => absurd hi (h1 i))
 
-theorem runWorkers_havesOK (fuel : Nat) (m : M) (h : Sound0 m.1) (hv : HavesOK m) :
+theorem runWorkers_havesOK (fuel : Nat) (m : M) (h : Sound0 m.1) (hw : WrOK m.1) (hv : HavesOK m) :
     HavesOK (runWorkers fuel m) := by
   induction fuel generalizing m with
   | zero => exact hv
@@ -308,28 +308,51 @@ theorem runWorkers_havesOK (fuel : Nat) (m : M) (h : Sound0 m.1) (hv : HavesOK m
     dsimp only
     split
     · exact hv
-    · split
-      · exact ih _ (h.adv (handleStopped_adv m))
-          (hv.next (handleStopped_adv m) (NoNewHave.of_eq (handleStopped_snd m)).newOK)
+    split
+    · next hs =>
+      simp only [Bool.and_eq_true] at hs
+      exact ih _ (h.adv (handleStopped_adv m)) (handleStopped_wrOK m hw hs.1)
+        (hv.next (handleStopped_adv m) (NoNewHave.of_eq (handleStopped_snd m)).newOK)
+    split
+    · next ha =>
+      simp only [Bool.and_eq_true] at ha
+      exact ih _ (h.adv (allocatorRun_adv m h)) (allocatorRun_wrOK m hw ha.1)
+        (hv.next (allocatorRun_adv m h) (allocatorRun_noNewHave m).newOK)
+    split
+    · next hver =>
+      simp only [Bool.and_eq_true] at hver
+      exact ih _ (h.adv (handleVerificationDone_adv m)) (handleVerificationDone_wrOK m hw hver.1)
+        (hv.next (handleVerificationDone_adv m) (handleVerificationDone_newOK m))
+    split
+    · next w hwr =>
+      split
+      · next hwritten =>
+        split
+        · have hok : w.good = true → false = false → w.gen = m.1.gen → m.1.loaded = true → m.1.diskOKi w.piece = true :=
+            fun _ _ hg hl => hw.ok w hwr hwritten hg hl
+          have a := handlePieceWriteDone_adv m w false hok
+          exact ih _ (h.adv a) (handlePieceWriteDone_wrOK m w false hw) (hv.next a (handlePieceWriteDone_haves m w false hok))
+        · exact hv
       · split
-        · exact ih _ (h.adv (allocatorRun_adv m h)) (hv.next (allocatorRun_adv m h) (allocatorRun_noNewHave m).newOK)
-        · split
-          · exact ih _ (h.adv (handleVerificationDone_adv m))
-              (hv.next (handleVerificationDone_adv m) (handleVerificationDone_newOK m))
-          · split
-            · split
-              · exact ih _ (h.adv (writerRun_adv m _ h)) (hv.next (writerRun_adv m _ h) (writerRun_haves m _ h))
-              · exact hv
-            · exact hv
+        · exact ih _ (h.adv (writerRun_adv m _ h)) (writerRun_wrOK m w hw hwr)
+            (hv.next (writerRun_adv m _ h) (writerRun_haves m _ h))
+        · exact hv
+    · exact hv
 
-theorem deliverParked_havesOK (m : M) (p : Parked) (h : Sound0 m.1) (hv : HavesOK m) :
+theorem deliverParked_havesOK (m : M) (p : Parked) (h : Sound0 m.1) (hw : WrOK m.1) (hv : HavesOK m) :
     HavesOK (deliverParked m p).1 := by
   unfold deliverParked
-  repeat' split
-  all_goals first
-    | exact hv
-    | exact runWorkers_havesOK _ _ (h.adv (handlePieceMessage_adv ..))
-        (hv.next (handlePieceMessage_adv ..) (NoNewHave.of_eq (handlePieceMessage_snd ..)).newOK)
+  split
+  · split
+    · split
+      · next hk =>
+        have hr : Running m.1 := hw.running_of_peer (by
+          intro hn; rw [Option.isNone_iff_eq_none] at hn; rw [hn] at hk; cases hk)
+        exact runWorkers_havesOK _ _ (h.adv (handlePieceMessage_adv ..)) (handlePieceMessage_wrOK _ _ _ _ _ _ hw hr)
+          (hv.next (handlePieceMessage_adv ..) (NoNewHave.of_eq (handlePieceMessage_snd ..)).newOK)
+      · exact hv
+    · exact hv
+  · exact hv
 
 /-- No handler of an op sends a `have`: they all come from the workers. -/
 theorem handle_noHave (s : St) (p : Parked) (kn : Nat → Bool) (op : Op) :
@@ -374,26 +397,65 @@ theorem handle_sound0 (s : St) (p : Parked) (kn : Nat → Bool) (op : Op) (h : S
 
 /-- **Every `have:i` the loop sends in a step names a piece whose verified bytes are on disk at the end of
 the step** (any op, any parameters, a parked piece message or not). -/
-theorem step_havesOK (s : St) (p : Parked) (kn : Nat → Bool) (op : Op) (h : Sound0 s) :
+theorem step_havesOK (s : St) (p : Parked) (kn : Nat → Bool) (op : Op) (h : Sound0 s) (hw : WrOK s) :
     ∀ o ∈ (step s p kn op).1.outs, ∀ i, o.msg = haveMsg i → (step s p kn op).1.st.diskOKi i = true := by
   unfold step
   have h0 : Sound0 { s with sto := [], mayStart := [], closedDl := [], mayStartI := false } := ⟨h.cfg, h.bad⟩
   have h1 := handle_sound0 _ p kn op h0
+  have w1 := handle_wrOK0 s p kn op hw
   have v1 : HavesOK (handle { s with sto := [], mayStart := [], closedDl := [], mayStartI := false } p kn op).1 :=
     fun o ho i hi => absurd hi (handle_noHave _ p kn op o ho i)
-  have v2 := runWorkers_havesOK 12 _ h1 v1
-  have h2 := h1.adv (runWorkers_adv 12 _ h1)
+  have v2 := runWorkers_havesOK 12 _ h1 w1 v1
+  have h2 := h1.adv (runWorkers_adv 12 _ h1 w1)
   dsimp only
   split
-  · exact deliverParked_havesOK _ _ h2 v2
+  · exact deliverParked_havesOK _ _ h2 (runWorkers_wrOK 12 _ w1) v2
   · exact v2
+
+/-! `Sound0` needs nothing about held write results: the configuration is constant and `bad` only shrinks. -/
+
+theorem Sound0.of_sub {s s' : St} (h : Sound0 s) (hc : s'.cfg = s.cfg) (hb : ∀ x ∈ s'.bad, x ∈ s.bad) : Sound0 s' where
+  cfg := hc ▸ h.cfg
+  bad := fun x hx => by
+    have := h.bad x (hb x hx)
+    rwa [hc]
+
+theorem writerRun_bad_sub (m : M) (w : WriteJob) : ∀ x ∈ (writerRun m w).1.bad, x ∈ m.1.bad := by
+  unfold writerRun
+  dsimp only
+  repeat' split
+  all_goals first
+    | (intro x hx; simpa using hx)
+    | (intro x hx; have : x ∈ m.1.bad.filter (fun b => b.1 ≠ w.piece) := by simpa using hx
+       exact (List.mem_filter.1 this).1)
+
+theorem runWorkers_bad_sub (fuel : Nat) (m : M) : ∀ x ∈ (runWorkers fuel m).1.bad, x ∈ m.1.bad := by
+  induction fuel generalizing m with
+  | zero => exact fun x hx => hx
+  | succ n ih =>
+    unfold runWorkers
+    dsimp only
+    repeat' split
+    all_goals first
+      | exact fun x hx => hx
+      | (intro x hx; have := ih _ x hx; first | simpa using this | exact writerRun_bad_sub m _ x this)
+
+theorem deliverParked_bad_sub (m : M) (p : Parked) : ∀ x ∈ (deliverParked m p).1.1.bad, x ∈ m.1.bad := by
+  unfold deliverParked
+  repeat' split
+  all_goals first
+    | exact fun x hx => hx
+    | (intro x hx; have := runWorkers_bad_sub _ _ x hx; simpa using this)
 
 /-- `Sound0` is an invariant of every step. -/
 theorem step_sound0 (s : St) (p : Parked) (kn : Nat → Bool) (op : Op) (h : Sound0 s) :
     Sound0 (step s p kn op).1.st := by
   have h0 : Sound0 { s with sto := [], mayStart := [], closedDl := [], mayStartI := false } := ⟨h.cfg, h.bad⟩
   have h1 := handle_sound0 _ p kn op h0
-  exact h1.adv (step_after_handle s p kn op h1)
+  rw [step_st]
+  split
+  · exact h1.of_sub (by simp) (fun x hx => runWorkers_bad_sub 12 _ x (deliverParked_bad_sub _ _ x hx))
+  · exact h1.of_sub (by simp) (runWorkers_bad_sub 12 _)
 
 theorem dstep_sound0 (sp : St × Parked) (e : Ev) (h : Sound0 sp.1) : Sound0 (dstep sp e).1 := by
   unfold dstep
